@@ -413,6 +413,124 @@ fn check_reuse<F: Backend>(b: &prog::Built, roots: &[Node], rng: &mut Rng, st: &
     Ok(())
 }
 
+/// Function-level bulk evaluators that live across tapes of tiny functions
+/// with 1..4 outputs: most of these tapes use the same few registers, and
+/// consecutive calls use the same number of samples - whatever an evaluator
+/// keys its scratch on (slot count, sample count, output count), some pair of
+/// consecutive tapes agrees on it while differing in the rest
+fn check_reuse_outputs<F: Backend>(rng: &mut Rng, st: &mut Stats) -> Result<(), Viol> {
+    let name = F::NAME;
+    let mut cx = fidget_core::Context::new();
+    let (x, y) = (cx.x(), cx.y());
+    let (c2, c3) = (cx.constant(2.0), cx.constant(3.0));
+    let s = cx.add(x, y).unwrap();
+    let d = cx.sub(x, y).unwrap();
+    let m = cx.mul(x, y).unwrap();
+    let x2 = cx.mul(x, c2).unwrap();
+    let y3 = cx.mul(y, c3).unwrap();
+    let families: Vec<Vec<Node>> = vec![vec![s], vec![x2, y3], vec![x, y, s], vec![m, d], vec![s, d, m, x2], vec![m], vec![x2], vec![y3, x2, s]];
+    let fns: Vec<F> = families.iter().map(|r| F::new(&cx, r).unwrap()).collect();
+    let mut fe = F::new_float_slice_eval();
+    let mut ge = F::new_grad_slice_eval();
+    let mut n = *rng.pick(&[1usize, 3, 8, 9, 16]);
+    for step in 0..8 {
+        let k = rng.below(fns.len());
+        if rng.chance(0.3) {
+            n = *rng.pick(&[1usize, 3, 8, 9, 16]);
+        }
+        let f = &fns[k];
+        let cols: Vec<Vec<f32>> = (0..f.vars().len()).map(|_| (0..n).map(|_| rng.uniform(-3.0, 3.0) as f32).collect()).collect();
+        child::note(&format!("C11 {name} reused function-level bulk evaluators, step {step} | function {k} ({} outputs) on {n} samples", families[k].len()));
+        let ft = f.float_slice_tape(Default::default());
+        match guarded(|| fe.eval(&ft, &cols).map(|o| (o.len(), (0..o.len()).map(|i| o[i].len()).collect::<Vec<_>>()))) {
+            Ok(Ok((l, lens))) if l == families[k].len() && lens.iter().all(|x| *x == n) => st.inc("reuse_output_count_float_calls"),
+            Ok(Ok((l, lens))) => return Err(Viol { sig: format!("reuse:{name}:float:output_shape"), msg: format!("reused float-slice evaluator returned {l} outputs of lengths {lens:?} for a tape with {} outputs and {n} samples", families[k].len()), detail: json!({"step": step}) }),
+            Ok(Err(e)) => return Err(Viol { sig: format!("spurious_error:{name}:reuse_outputs_float"), msg: format!("step {step}: {e}"), detail: json!(null) }),
+            Err(pi) => return Err(panic_viol("reuse_outputs_float", name, &pi, String::new(), json!({"step": step, "function": k, "samples": n}))),
+        }
+        let gt = f.grad_slice_tape(Default::default());
+        let gcols: Vec<Vec<Grad>> = cols.iter().map(|c| c.iter().map(|v| Grad::new(*v, 1.0, 0.5, 0.0)).collect()).collect();
+        match guarded(|| ge.eval(&gt, &gcols).map(|o| (o.len(), (0..o.len()).map(|i| o[i].len()).collect::<Vec<_>>()))) {
+            Ok(Ok((l, lens))) if l == families[k].len() && lens.iter().all(|x| *x == n) => st.inc("reuse_output_count_grad_calls"),
+            Ok(Ok((l, lens))) => return Err(Viol { sig: format!("reuse:{name}:grad:output_shape"), msg: format!("reused grad-slice evaluator returned {l} outputs of lengths {lens:?} for a tape with {} outputs and {n} samples", families[k].len()), detail: json!({"step": step}) }),
+            Ok(Err(e)) => return Err(Viol { sig: format!("spurious_error:{name}:reuse_outputs_grad"), msg: format!("step {step}: {e}"), detail: json!(null) }),
+            Err(pi) => return Err(panic_viol("reuse_outputs_grad", name, &pi, String::new(), json!({"step": step, "function": k, "samples": n}))),
+        }
+    }
+    Ok(())
+}
+
+/// Every binary operation with a special immediate on either side (infinite,
+/// zero of either sign, the largest and smallest normal, a denormal), applied
+/// to a variable over boxes whose bounds are exactly zero / infinite-free
+/// edge cases, alone and fed into an out-of-line function: the interval
+/// result must be well formed (both bounds NaN or neither, lower <= upper)
+/// and nothing may panic (in generated code an assertion inside a callback
+/// cannot unwind - the crash monitor attributes the abort to this case)
+fn check_special_immediates<F: Backend>(st: &mut Stats) -> Result<(), Viol> {
+    use fidget_core::context::Context;
+    let name = F::NAME;
+    let consts = [f32::INFINITY, f32::NEG_INFINITY, 0.0, -0.0, f32::MAX, f32::MIN, f32::MIN_POSITIVE, 1e-45, 1.0, -1.0];
+    let boxes: [(f32, f32); 10] = [(0.0, 1.0), (-1.0, 0.0), (0.0, 0.0), (-0.0, 0.0), (-1.0, 1.0), (0.0, f32::MAX), (f32::MIN, 0.0), (1.0, 2.0), (-2.0, -1.0), (f32::MIN, f32::MAX)];
+    type BinF = fn(&mut Context, Node, Node) -> Node;
+    let ops: [(&str, BinF); 12] = [
+        ("add", |c, a, b| c.add(a, b).unwrap()),
+        ("sub", |c, a, b| c.sub(a, b).unwrap()),
+        ("mul", |c, a, b| c.mul(a, b).unwrap()),
+        ("div", |c, a, b| c.div(a, b).unwrap()),
+        ("min", |c, a, b| c.min(a, b).unwrap()),
+        ("max", |c, a, b| c.max(a, b).unwrap()),
+        ("atan2", |c, a, b| c.atan2(a, b).unwrap()),
+        ("mod", |c, a, b| c.modulo(a, b).unwrap()),
+        ("compare", |c, a, b| c.compare(a, b).unwrap()),
+        ("and", |c, a, b| c.and(a, b).unwrap()),
+        ("or", |c, a, b| c.or(a, b).unwrap()),
+        ("mix", |c, a, b| c.mix(a, b).unwrap()),
+    ];
+    for (opname, build) in ops {
+        for k in consts {
+            for imm_left in [false, true] {
+                for wrap in [0u8, 1, 2] {
+                    let mut cx = Context::new();
+                    let x = cx.x();
+                    let c = cx.constant(k);
+                    let mut n = if imm_left { build(&mut cx, c, x) } else { build(&mut cx, x, c) };
+                    n = match wrap {
+                        1 => cx.exp(n).unwrap(),
+                        2 => cx.atan(n).unwrap(),
+                        _ => n,
+                    };
+                    if cx.get_const(n).is_ok() {
+                        continue; // folded away
+                    }
+                    let f = F::new(&cx, &[n]).unwrap();
+                    if f.vars().len() != 1 {
+                        continue;
+                    }
+                    for bx in boxes {
+                        child::note(&format!("C11 {name} special immediate | {opname} imm {k:?} left={imm_left} wrap={wrap} box {bx:?}"));
+                        st.inc("special_immediate_interval_evals");
+                        match guarded(|| interval_eval(&f, &[Interval::new(bx.0, bx.1)])) {
+                            Ok(Ok((out, _))) => {
+                                if !well_formed(out[0]) {
+                                    return Err(Viol {
+                                        sig: format!("ill_formed:{name}:special_immediate:{opname}"),
+                                        msg: format!("{name}: {opname} with the immediate {k:?} on the {} over x = [{:?}, {:?}] (wrapper {wrap}) returned the ill-formed interval {:?}", if imm_left { "left" } else { "right" }, bx.0, bx.1, out[0]),
+                                        detail: json!({"op": opname, "immediate_bits": k.to_bits(), "immediate_left": imm_left, "box": [format!("{:?}", bx.0), format!("{:?}", bx.1)]}),
+                                    });
+                                }
+                            }
+                            Ok(Err(e)) => return Err(Viol { sig: format!("spurious_error:{name}:special_immediate"), msg: e, detail: json!(null) }),
+                            Err(pi) => return Err(panic_viol("special_immediate", name, &pi, format!(":{opname}"), json!({"op": opname, "immediate": format!("{k:?}"), "immediate_left": imm_left, "wrapper": wrap, "box": [format!("{:?}", bx.0), format!("{:?}", bx.1)]}))),
+                        }
+                    }
+                }
+            }
+        }
+    }
+    Ok(())
+}
+
 fn check_prog(p: &Prog, seed: u64, st: &mut Stats) -> Option<Viol> {
     let mut rng = Rng::new(seed);
     let rng = &mut rng;
@@ -451,12 +569,24 @@ fn check_prog(p: &Prog, seed: u64, st: &mut Stats) -> Option<Viol> {
     if let Err(v) = check_reuse::<JitFunction>(&b, &roots, rng, st) {
         return Some(v);
     }
+    if let Err(v) = check_reuse_outputs::<VmFunction>(rng, st) {
+        return Some(v);
+    }
+    if let Err(v) = check_reuse_outputs::<JitFunction>(rng, st) {
+        return Some(v);
+    }
     None
 }
 
 fn finite_consts(p: &mut Prog, rng: &mut Rng) {
     for n in p.nodes.iter_mut() {
         if let PNode::Const(c) = n {
+            // (an infinite constant is a legitimate part of an expression -
+            // `max(x, -inf)`, a product of two large factors folded by the
+            // context - and is kept now and then; NaN constants are not)
+            if c.is_infinite() && rng.chance(0.35) {
+                continue;
+            }
             if !c.is_finite() {
                 *c = if rng.chance(0.5) { f32::MAX } else { rng.log_f32(-20.0, 120.0) };
                 if !c.is_finite() {
@@ -492,6 +622,14 @@ impl Prop for C11 {
         finite_consts(&mut p, rng);
         st.distinct(p.hash());
         st.sample(|| json!({"program": p.to_json()}));
+        if case % 512 == 1 {
+            for r in [check_special_immediates::<VmFunction>(st), check_special_immediates::<JitFunction>(st)] {
+                if let Err(v) = r {
+                    st.violation(case, v.sig, v.msg, json!({"detail": v.detail}));
+                    return;
+                }
+            }
+        }
         let seed = rng.next_u64();
         if let Some(v) = check_prog(&p, seed, st) {
             let sig = v.sig.clone();
